@@ -60,6 +60,11 @@ def zoo(tier, kinds=('uni', 'biv', 'gm', 'vine'), unfitted=True):
                 out.append(('uni', m, d))
             if unfitted:
                 out.append(('uni', m, None))
+        # models that were fitted on far-away data and queried before the fit that is serialised
+        for m in (('kde', None, None, False), ('kde', 'silverman', 30, False), ('truncated',), ('beta',), ('uniform',),
+                  ('univariate', 'default'), ('univariate', 'cands-instances')):
+            out.append(('uni', m, ('normal', 0.0, 1.0, 30), ('normal', -25.0, 1.0, 30)))
+            out.append(('uni', m, ('normal', 0.0, 1.0, 30), ('const', 3.0, 20)))
         # weights together with sample_size (which must then equal the number of rows)
         out.append(('uni', ('kde', 'scott', 30, True), ('normal', 0.0, 1.0, 30)))
     if 'biv' in kinds:
@@ -106,6 +111,15 @@ def build(spec, random_state=None):
         x = training_data(spec)
         m = uni.make_model(spec[1], x if x is not None else np.linspace(0, 1, 20), random_state=random_state)
         if x is not None:
+            if len(spec) > 3:
+                # fitted on other data and QUERIED before (spec[3] = that earlier data set)
+                first = uni.dataset(spec[3])
+                np.random.seed(1234)
+                m.fit(first.copy())
+                attempt(m.cumulative_distribution, np.quantile(first, [0.1, 0.5, 0.9]))
+                attempt(m.percent_point, np.array([0.2, 0.7]))
+                attempt(m.probability_density, np.quantile(first, [0.3]))
+                attempt(m.sample, 2)
             np.random.seed(1234)
             m.fit(x.copy())
         return m
